@@ -30,7 +30,10 @@ Els(f, q) == [i \in 1..Len(q) |-> El(f, q[i])]
 TopT(c, f) == IF Live(f) = {} THEN 0 ELSE f[CHOOSE h \in First(c, f) : TRUE]
 
 Empty == [h \in Hs |-> 0]
-Cfgs == [order : {"asc", "desc", "default"}]
+\* clock: how the adapter turns the abstract instants 0..T+1 into time.Time values - "unix" = time.Unix(t, 0), "wide" = instants
+\* spread over everything a time.Time can hold (the zero Time, years 1600, 1700, 1970, 2262, 2300, 9999: far outside what fits
+\* into 64-bit nanoseconds since 1970).  Only the order of the instants matters; the model does not look at clock.
+Cfgs == [order : {"asc", "desc", "default"}, clock : {"unix", "wide"}]
 Init == /\ cfg \in Cfgs
         /\ tm = Empty
         /\ ev = [op |-> "reset", cfg |-> cfg]
